@@ -184,6 +184,37 @@ def body_graph_reactor(env):
         shutil.rmtree(d, ignore_errors=True)
 
 
+def body_mesh_req(env):
+    """Reactor._setup_asm_axial_mesh_req: the step requirement and the wall model chosen for an assembly do not depend on the
+    assemblies set up before it.  Universe X: [A, B]; universe Y: [B'] alone (B' = B).  The per-assembly criterion
+    dassh.assembly.calculate_min_dz is a stub returning symbolic requirements (one for each wall model), with limiting
+    subchannel codes enumerated."""
+    import dassh.reactor as rm
+    from harness.common import StubSelf
+    codeA, codeB = env.params['codes']
+    with env.patch([rm]):
+        cutoff = env.pos('conv_approx_dz_cutoff', hi=1)
+        dzs = {nm: (env.pos('dz_%s_exact' % nm, hi=1), env.pos('dz_%s_approx' % nm, hi=1)) for nm in ('A', 'B')}
+        codes = {'A': codeA, 'B': codeB}
+
+        def mk(nm):
+            return StubSelf(name=nm, id=0, has_rodded=True, _estimated_T_out=700.0, region=[StubSelf(_conv_approx=False), StubSelf(_conv_approx=False)])
+
+        def crit(asm, t_in, t_out, adiabatic):
+            approx = asm.region[0]._conv_approx
+            return dzs[asm.name][1 if approx else 0], codes[asm.name]
+        res = {}
+        for uni, names in (('X', ['A', 'B']), ('Y', ['B'])):
+            asms = [mk(nm) for nm in names]
+            s_ = StubSelf(assemblies=asms, inlet_temp=600.0, _is_adiabatic=False,
+                          _options={'conv_approx': True, 'conv_approx_dz_cutoff': cutoff})
+            with env.patch([], extra={(rm.dassh.assembly, 'calculate_min_dz'): crit}):
+                rm.Reactor._setup_asm_axial_mesh_req(s_)
+            res[uni] = (s_.min_dz['dz'][-1], [reg._conv_approx for reg in asms[-1].region])
+        env.eq('assembly B: same step requirement behind assembly A as alone', res['X'][0], res['Y'][0], key='setup_state_leaks_between_assemblies')
+        env.holds('assembly B: same wall model behind assembly A as alone', res['X'][1] == res['Y'][1], key='setup_state_leaks_between_assemblies')
+
+
 def instances(tier):
     inst = []
     kinds = [('rodded', 1), ('rodded', 2), ('simple',), ('6node',)]
@@ -193,6 +224,8 @@ def instances(tier):
                          check_vacuity=False))
     inst.append(dict(label='object-graph[rodded-1,tracker]', body=body_graph_region, params={'kind': ('rodded', 1), 'tracker': True},
                      check_vacuity=False))
+    for codes in (('3-22', '1-111'), ('1-111', '3-22'), ('2-22', '2-12'), ('1-111', '1-111')):
+        inst.append(dict(label='mesh-requirement[limiting cells %s then %s]' % codes, body=body_mesh_req, params={'codes': codes}))
     inst.append(dict(label='object-graph[reactor,3 assemblies of one type]', body=body_graph_reactor, params={}, check_vacuity=False))
     inst.append(dict(label='object-graph[reactor,3 assemblies with an unrodded region]', body=body_graph_reactor,
                      params={'unrodded': True}, check_vacuity=False))
